@@ -58,6 +58,13 @@ def check_text(case, ctx):
         nm, npw = unicodedata.normalize("NFKD", m) != m, unicodedata.normalize("NFKD", pw) != pw
         raise Violation("C03/seed/differs[%s]" % ("nfkd-sensitive" if (nm or npw) else "plain"),
                         "seed(%r, %r) = %s, expected %s" % (m, pw, got.hex(), want.hex()))
+    for m2, pw2 in ((m + pw[:1], pw[1:]), (m[:-1], m[-1:] + pw)):
+        if (m2, pw2) == (m, pw):
+            continue
+        st_, got2 = call(bip39.bip39_seed_from_mnemonic, m2, pw2)
+        if st_ == "exc" or got2 != R39.seed(m2, pw2):
+            raise Violation("C03/seed/differs-after-related-call", "seed(%r, %r) right after seed(%r, %r) = %r, expected %s"
+                            % (m2, pw2, m, pw, got2 if st_ == "exc" else got2.hex(), R39.seed(m2, pw2).hex()))
     if pw == "":
         st_, got = call(bip39.bip39_seed_from_mnemonic, m)
         if st_ == "exc" or got != want:
